@@ -64,10 +64,36 @@ CHECKS = {
    ref="DESIGN.md section 6"),
 }
 
-PENDING = {
- "C18": "claimed by design (DESIGN.md section 7) - simulator under construction in this round; listed here until the check is registered",
- "C20": "claimed by design (DESIGN.md section 8) - simulator under construction in this round; listed here until the check is registered",
-}
+PENDING = {}
+
+CHECKS["C18"] = dict(
+   technique="deterministic simulation: seeded histories of global-RNG states plus an adversarial 'any legal outcome' stub for numpy.random.choice; conservation oracles after every compression call",
+   text="Scoped claim. The statement quantifies over all states of NumPy's global random generator (random restarts of optimal_grouping); that is the "
+        "nondeterminism the simulator owns: seeded histories of reseeds (incl. edge seeds), set_state, draws and earlier compression calls precede every "
+        "call, and in a third of the runs numpy.random.choice is replaced by a stub that validates the request and returns a plan-chosen legal outcome "
+        "(lowest, highest, adjacent run, reversed, seeded sample, duplicates when sampling with replacement is requested), i.e. randomness is treated as "
+        "scheduler nondeterminism. After every call: exactly L layers, strengths >= 0, total Cn2 conserved to 1e-12, heights are input heights in "
+        "increasing order inside their groups, cost of the returned grouping not above the equal split; equivalent_layers: total, 5/3 height and wind "
+        "moments; GCTM: L layers, non-negative, objective not above its starting point. The equivalent-layers and GCTM clauses have no RNG/history "
+        "dimension and ride along as workload oracles on the same profiles (N 2-40, regular/irregular/clustered heights, 6 decades of strength, "
+        "L 1..N-1); the evidence counts them separately. Sampling, not proof.",
+   note="The grouping is reconstructed from the returned strengths (contiguous groups); equal split = numpy.linspace(0,N,L+1,dtype=int) or numpy.array_split, "
+        "passing either suffices. GCTM only on profiles whose L equal-thickness slabs are all non-empty.",
+   ref="DESIGN.md section 7")
+CHECKS["C20"] = dict(
+   technique="deterministic simulation: programs of public calls by several simulated callers on a shared array heap; line-level argument monitor; injected write protection, aliasing, re-allocation and poisoned numpy.empty; repeat-call / fresh-copy / batch-vs-item history oracles",
+   text="Seeded exploration of programs: 1-3 simulated callers issue 5-40 public aotools calls (registry of 87 of the 97 public callables; the rest are "
+        "excluded with a reason or covered through their parent) whose array arguments come from a shared heap (float64/float32/int64/complex128; C, "
+        "Fortran, strided, frames that are views of a stack, write-protected), interleaved call by call, with repeats of earlier calls, heap "
+        "re-allocation (id() reuse), ambient RNG reseeds and, per call, numpy.empty poisoned with a different value per allocation when called from "
+        "aotools frames. Invariants: at every executed line of an aotools frame and after the call every argument array (and the whole heap) is "
+        "bit-identical to its snapshot; the same call later in the history returns a bytewise equal result; the call on fresh copies of the arguments "
+        "returns an equal result; stack calls equal per-item calls. A run whose digest depends on which unrelated runs preceded it in the process is "
+        "reported as hidden state. Sampling, not proof.",
+   note="An exception is a result (same type again = equal). A write-protected argument that makes a call raise is judged on a writable copy. "
+        "Results on fresh copies and batch-vs-item are compared with rtol 1e-9 (1e-4 when single precision is involved). numba kernels are opaque to "
+        "the line monitor. One open known finding (centre_of_gravity stack vs frame with threshold != 0).",
+   ref="DESIGN.md section 8")
 
 def main():
     checks = []
